@@ -12,3 +12,9 @@ CHECKS["C08"] = {
     "note": "Trusted: Lean kernel; rustc's u128 arithmetic; the correspondence (sampled except the small exhaustive universe) for model = code; Modulus::new's shift-subtract division is modelled by its quotient/remainder inside mk? (divide_uint's loop is modelled separately and compared). Theorems not yet proved for a function are listed in DESIGN.md §6 C08 status; for those the check is correspondence + spec oracle only.",
     "technique": "Lean 4 theorems over an executable model + differential correspondence with the Rust code",
 }
+
+CHECKS["C09"] = {
+    "text": "Lean theorems over the model of DWTHandler / NTTTables: for any commutative ring and any psi with psi^N = -1 the forward butterfly network with the bit-reversed root table outputs a(psi^(2*brev(i)+1)), the inverse network with the scrambled inverse table undoes it up to the factor N (cancelled by the N^-1 scalar), and the inverse transform of a pointwise product is the negacyclic product; the lazy modular instance simulates the exact network over ZMod q with all values in [0,4q) forward / [0,2q) inverse for every q < 2^61 (no u64 overflow); for prime q the minimal primitive root does not depend on the primitive root the random search found. Tied to the code by bit-exact correspondence of tables and transforms (all unit vectors for small N) and by the O(N^2) evaluation spec.",
+    "note": "Trusted: Lean kernel; correspondence for model = code (sampled; unit vectors exhaustive for N <= 32 quick / 256 thorough); the random primitive-root search is an input of the model; Modulus::is_prime (Miller-Rabin, 40 random rounds) enters as a Boolean; the driver's own primality test is deterministic Miller-Rabin with 12 bases (published bound, trusted).",
+    "technique": "Lean 4 theorems (generic ring + ZMod simulation) over an executable model + differential correspondence with the Rust code",
+}
